@@ -75,12 +75,17 @@ def judge(case, real, extra, cache):
     if (real["hand"] == "1" and len(starts) == 1 and isinstance(starts[0][1], str)
             and (starts[0][1].startswith("1") or starts[0][1].startswith("204") or starts[0][1].startswith("304"))):
         out.append(("file wrapper handed over to the channel after a 1xx/204/304 status", "closed by the task", "handed over", None))
-    # traceback exposure (the traceback text is a generated input: the marker, or any text of >= 4 characters)
+    # traceback exposure (the traceback text is a generated input: the marker, or any text of >= 8
+    # characters found in what follows the head once the innocent 500 body is taken out; shorter texts
+    # are covered by the exact comparison of the 500's body below)
     tbtext = case["cfg"]["tb"]
     if not case["cfg"]["expose"]:
-        if T.TB_MARK.encode() in wire or (len(tbtext) >= 4 and tbtext.encode("utf-8", "replace") in wire
-                                          and tbtext not in "The server encountered an unexpected internal server error"
-                                          and tbtext not in "(generated by " + (case["cfg"]["ident"] or "server") + ")"):
+        k = wire.find(b"\r\n\r\n")
+        after_head = wire[k + 4:] if k >= 0 else b""
+        innocent = T.expected_error_body(case) if case["req"]["err"] is None else b""
+        rest = after_head.replace(innocent, b"") if innocent else after_head
+        if T.TB_MARK.encode() in wire or (len(tbtext) >= 8 and case["req"]["err"] is None
+                                          and tbtext.encode("utf-8", "replace") in rest):
             out.append(("traceback text on the wire without expose_tracebacks", "absent", "present", None))
     if case["req"]["err"] is not None:
         if real["esc"] != "none":
